@@ -51,7 +51,7 @@ package cmd
 //@ func (*Tagger).Tag props=C20
 //@   safety fs-frame
 //@   site#gate createTag: requestedVersion.GreaterThan(previousVersion) && status.IsClean() && lastErr("largestTagSemver") == nil && lastErr("Status") == nil && lastErr("NewVersion") == nil
-//@   site#args createTag: $0 == repo && $1 == fmt.Sprintf("v%s", requestedVersion.String())
+//@   site#args createTag: $0 == repo && $1 == "v" + requestedVersion.String()
 //@   site largestTagSemver: $0 == repo && $1 == requestedVersion.Major() && requestedVersion == semver.NewVersion(t.Version)
 //@   returns#nonew lastErr("largestTagSemver") == nil && lastErr("NewVersion") == nil && lastErr("PlainOpen") == nil && !requestedVersion.GreaterThan(previousVersion) ==> err == ErrNoNewVersion && called("createTag") == 0
 //@   returns#ok err == nil ==> called("createTag") == 1 && lastErr("createTag") == nil
